@@ -352,6 +352,10 @@ def _rename_block(op, name):
     return op
 
 
+def VARIANT_PRED(t, v):
+    return t['n'] + t['k'] <= 1 or (t['n'] + t['k'] == 2 and t.get('other') in ('O2', 'O4'))
+
+
 def plan(tier):
     t = []
     t.append({'n': 0, 'k': 0, 'prefix': [], 'pol': 'all', 'level': 'full', 'depth2': True})
